@@ -152,6 +152,18 @@ SEEDS = [
  ("S165", "round7/Y", 6, "C18", "optimize: merged overwritten-load rule tests !i2.protected instead of !i1.protected", "load(*P); v = 1; loses the hardware read at -O1"),
  ("S166", "round7/Y", 7, "C17", "asm(): superchip read port chosen by a positive list that forgets CPX/CPY", "if (X < s) with a superchip s reads the write port"),
  ("S167", "round7/Y", 8, "C03", "append_code: inlined branches and JMPs rebuilt with nb_bytes 2", "each inlined JMP measured one byte short: a 129-byte backward branch left unrepaired"),
+ ("S168", "round8/P", 1, "C03", "check_branches, repair of a <= pair: the .fixupN label emitted after the JMP instead of before it", "if (X > 5) { more than 127 bytes }: the equal case falls through into the body"),
+ ("S169", "round8/P", 2, "C04", "asm() AbsoluteY arm for ordinary arrays: zero-page arr,Y sized like the X-indexed arm (2 bytes)", "LDA/STA/ADC/CMP on a zero-page array through Y reported one byte short"),
+ ("S170", "round8/P", 3, "C03", "check_branches upward distance scan: the branch's own 2 bytes no longer counted", "a backward branch at exactly -129 is left unrepaired"),
+ ("S171", "round8/P", 4, "C12", "generate_function_call: inline expansions not recorded in the caller's call-tree entry", "a function called only from inside an inline function is dropped, its JSR stays"),
+ ("S172", "round8/P", 5, "C12", "compute_functions_actually_in_use: interrupt handlers inserted directly instead of traversed as roots", "functions reachable only from an interrupt handler are dropped"),
+ ("S173", "round8/P", 6, "C13", "append_code: labels and operands that already contain an inline suffix copied without the new one", "a nested inline function expanded twice in one function: duplicate labels"),
+ ("S174", "round8/Q", 1, "C15", "generate_condition_ex operand-swap table: Gte => Lt instead of Lte", "if (5 < x), while (5 >= x): wrong when both operands are equal"),
+ ("S175", "round8/Q", 2, "C15", "generate_plusplus 16-bit decrement leaves the belief 'flags of the whole variable'", "i--; if (i) tests the low byte only (wrong for 0x0101); i -= 1 is fine"),
+ ("S176", "round8/Q", 3, "C17", "asm(): port selection folded into a helper that takes only STA as a write", "v = X; v = Y; on superchip / 3E variables: STX/STY at the read port"),
+ ("S177", "round8/Q", 4, "C14", "append_code rebuilds renamed branches with protected: false", "-O1: an inline function with if (p <= 3) called with a constant loses CMP #3 / BEQ"),
+ ("S178", "round8/Q", 5, "C18", "optimize: store/load pair rules merged, the STA/LDA arm drops the !i2.protected guard", "*REG = j; load(*REG); or i = j; load(i); loses the protected LDA at -O1"),
+ ("S179", "round8/Q", 6, "C18", "generate_csleep_sequence: csleep(8) emitted as PHA/PLA/NOP", "csleep(8) takes 9 cycles"),
 ]
 CONTROLS = [("K01", "round2/E", 1, "cpp.rs: three-valued State enum replaced by two booleans"), ("K02", "round2/E", 2, "renamed generated local labels"),
             ("K03", "round2/E", 3, "new peephole rule: unreachable instruction after RTS/RTI removed"), ("K04", "round2/E", 4, "different instruction selection for X = Y / Y = X while the accumulator is in use"),
@@ -167,20 +179,22 @@ CONTROLS = [("K01", "round2/E", 1, "cpp.rs: three-valued State enum replaced by 
             ("K25", "round7/W", 9, "cpp.rs splice loop rewritten as while with rfind/truncate, read_line appending directly"), ("K26", "round7/W", 10, "scanner: split_once for the comment end, the // vs /* decision restated, the two string-end branches merged"),
             ("K27", "round7/X", 9, "parse_int: the three radix arms merged into one from_str_radix call"), ("K28", "round7/X", 10, "call tree via entry().or_default().push(), visited test via set.insert()"),
             ("K29", "round7/Y", 9, "asm() AbsoluteY arm: port-offset selection rewritten with write = (mnemonic == STA)"), ("K30", "round7/Y", 10, "four pure rewrites in optimize, check_branches (>= 128), the deferred purge (mem::take) and generate_if"),
+            ("K31", "round8/P", 7, "size_bytes as an iterator sum; duplicate arms of check_branches merged, the inverted-branch construction in one closure"), ("K32", "round8/P", 8, "function_is_actually_in_use as a work list; call-tree insertion through entry().or_default().push()"),
+            ("K33", "round8/Q", 7, "asm(): port selection folded into a port_offset helper (STA | STX | STY are writes)"), ("K34", "round8/Q", 8, "optimize: the four store/load pair rules merged into one match, every !i2.protected guard kept"),
             ("K09", "round3/I", 7, "csleep(9): NOP; NOP; DEC DUMMY instead of DEC DUMMY; NOP; NOP"), ("K10", "round3/J", 7, "several small refactors of -D parsing, undefine, #ifdef state match, folding")]
 REBASED = {("round7/Y", 1): "round7/Y_rebased/patch_1.diff", ("round2/C", 2): "rebased/C_patch_2.diff", ("round3/G", 6): "rebased/G_patch_6.diff", ("round3/J", 7): "rebased/J_patch_7.diff"}
 
 BY_ID = {sid: (d, n) for (sid, d, n, *_rest) in SEEDS}
 BY_ID.update({sid: (d, n) for (sid, d, n, _w) in CONTROLS})
 conf = {}
-for fn in ("seed_confirm2.log", "seed_confirm3.log", "seed_confirm4.log", "seed_confirm5.log", "seed_confirm6.log", "seed_confirm7.log"):
+for fn in ("seed_confirm2.log", "seed_confirm3.log", "seed_confirm4.log", "seed_confirm5.log", "seed_confirm6.log", "seed_confirm7.log", "seed_confirm8.log"):
     for l in open(os.path.join(W, fn)):
         try:
             o = json.loads(l)
         except ValueError:
             continue
         d = o["dir"].rstrip("/")
-        key = {"/tmp/c2r": "round2/C"}.get(d, ("round2/" if "wt2_" in d else "round3/" if "wt3_" in d else "round4/" if "wt4_" in d else "round5/" if "wt5_" in d else "round6/" if "wt6_" in d else "round7/") + d[-1])
+        key = {"/tmp/c2r": "round2/C"}.get(d, ("round2/" if "wt2_" in d else "round3/" if "wt3_" in d else "round4/" if "wt4_" in d else "round5/" if "wt5_" in d else "round6/" if "wt6_" in d else "round7/" if "wt7_" in d else "round8/") + d[-1])
         conf[(key, int(o["n"]))] = o
 farm = {}
 for fn in sys.argv[1:]:
